@@ -511,8 +511,25 @@ theorem runHook_frame (n : Node K V C T H D) (hk : Bool × Prog K V C E Unit) :
   unfold runHook
   split
   · refine ⟨rfl, rfl, rfl, fun h0 => ?_⟩
-    exact (run_pres cfg hk.2 (n.dlv.toSt n.tree) n.vol e).sess_none h0
+    exact (run_pres cfg hk.2 (n.dlv.unmetered n.tree) n.vol e).sess_none h0
   · exact ⟨rfl, rfl, rfl, fun h0 => h0⟩
+
+/-- block hooks run unmetered: meter and meteredness of the deliver state are what they were -/
+theorem runHook_gas (n : Node K V C T H D) (hk : Bool × Prog K V C E Unit) :
+    (runHook cfg e n hk).dlv.gas = n.dlv.gas ∧ (runHook cfg e n hk).dlv.metered = n.dlv.metered := by
+  unfold runHook
+  split <;> exact ⟨rfl, rfl⟩
+
+theorem foldl_runHook_gas (hooks : List (Bool × Prog K V C E Unit)) (n : Node K V C T H D) :
+    (hooks.foldl (runHook cfg e) n).dlv.gas = n.dlv.gas ∧
+    (hooks.foldl (runHook cfg e) n).dlv.metered = n.dlv.metered := by
+  induction hooks generalizing n with
+  | nil => exact ⟨rfl, rfl⟩
+  | cons hk t ih =>
+    rw [List.foldl_cons]
+    obtain ⟨a1, a2⟩ := ih (runHook cfg e n hk)
+    obtain ⟨b1, b2⟩ := runHook_gas cfg e n hk
+    exact ⟨a1.trans b1, a2.trans b2⟩
 
 theorem foldl_runHook_frame (hooks : List (Bool × Prog K V C E Unit)) (n : Node K V C T H D) :
     (hooks.foldl (runHook cfg e) n).tree = n.tree ∧ (hooks.foldl (runHook cfg e) n).idx = n.idx ∧
@@ -539,20 +556,24 @@ theorem endBlock_frame (n : Node K V C T H D) :
   let ⟨a1, a2, a3, _⟩ := foldl_runHook_frame cfg e (hs.endb (n.height + 1)) n
   ⟨a1, a2, a3⟩
 
+/-- an aimed hook sees neither the level nor the limit of the block's meter: run from two nodes
+    that differ in the level only, it does the same and leaves the same difference -/
 theorem runHook_shift (d : Int) (a b : Node K V C T H D) (hk : Bool × Prog K V C E Unit)
-    (haim : hk.1 = true) (hg : GasShiftInv cfg hk.2) (h : ShiftNode d a b) :
+    (haim : hk.1 = true) (h : ShiftNode d a b) :
     ShiftNode d (runHook cfg e a hk) (runHook cfg e b hk) := by
   obtain ⟨h1, h2, h3, h4, h5, h6, h7⟩ := h
+  have hu : b.dlv.unmetered b.tree = a.dlv.unmetered a.tree := by
+    unfold Ov.unmetered
+    rw [h1, h2.sess, h2.cache]
   unfold runHook
   simp only [haim, Bool.true_or, if_true]
-  have hs0 : ShiftSt d (a.dlv.toSt a.tree) (b.dlv.toSt b.tree) := by
-    rw [h1]; exact h2.toSt a.tree
-  obtain ⟨_, x2, x3⟩ := hg d _ _ a.vol e hs0
-  rw [h4]
-  exact ⟨h1, x2.ovOf, h3, x3, h5, h6, h7⟩
+  rw [hu, h4]
+  refine ⟨h1, ?_, h3, rfl, h5, h6, h7⟩
+  unfold ShiftOv at h2 ⊢
+  rw [h2]
 
 theorem foldl_runHook_shift (d : Int) (hooks : List (Bool × Prog K V C E Unit))
-    (hh : ∀ hk ∈ hooks, hk.1 = true ∧ GasShiftInv cfg hk.2) (a b : Node K V C T H D)
+    (hh : ∀ hk ∈ hooks, hk.1 = true) (a b : Node K V C T H D)
     (h : ShiftNode d a b) :
     ShiftNode d (hooks.foldl (runHook cfg e) a) (hooks.foldl (runHook cfg e) b) := by
   induction hooks generalizing a b with
@@ -561,15 +582,26 @@ theorem foldl_runHook_shift (d : Int) (hooks : List (Bool × Prog K V C E Unit))
     rw [List.foldl_cons, List.foldl_cons]
     have hk' := hh hk (List.mem_cons_self ..)
     exact ih (fun x hx => hh x (List.mem_cons_of_mem _ hx)) _ _
-      (runHook_shift cfg e d a b hk hk'.1 hk'.2 h)
+      (runHook_shift cfg e d a b hk hk' h)
 
-theorem endBlock_shift (hhb : HooksGasBlind cfg hs) (ha : AllAimed hs) (d : Int)
+/-- EndBlock commutes with gas shifts of the deliver state, whatever the hooks do and whatever the
+    level: they run unmetered -/
+theorem endBlock_shift (ha : AllAimed hs) (d : Int)
     (a b : Node K V C T H D) (h : ShiftNode d a b) :
     ShiftNode d (endBlock cfg hs e a) (endBlock cfg hs e b) := by
   unfold endBlock
   rw [h.2.2.2.2.2.1]
-  exact foldl_runHook_shift cfg e d _
-    (fun hk hm => ⟨(ha _).2 hk hm, hhb _ hk hm⟩) a b h
+  exact foldl_runHook_shift cfg e d _ (fun hk hm => (ha _).2 hk hm) a b h
+
+/-- EndBlock leaves the block's meter where the last transaction left it -/
+theorem endBlock_gas (n : Node K V C T H D) :
+    (endBlock cfg hs e n).dlv.gas = n.dlv.gas ∧ (endBlock cfg hs e n).dlv.metered = n.dlv.metered :=
+  foldl_runHook_gas cfg e _ n
+
+/-- the transactions of a block find the meter at 0, whatever the BeginBlock hooks did -/
+theorem beginBlock_gas (n : Node K V C T H D) :
+    (beginBlock cfg hs e n).dlv.gas = ⟨hs.gasLimit, 0⟩ ∧ (beginBlock cfg hs e n).dlv.metered = true :=
+  foldl_runHook_gas cfg e _ { n with dlv := Ov.fresh hs.gasLimit }
 
 theorem commit_frame (n : Node K V C T H D) :
     (commit cfg hs n).idx = n.idx ∧ (commit cfg hs n).vol = n.vol ∧
